@@ -468,7 +468,7 @@ impl fmt::Display for Ev {
 thread_local! {
     static LOG: RefCell<Vec<Ev>> = const { RefCell::new(Vec::new()) };
     /// remaining `Pending` answers of every scripted leaf's `poll_ready`, by leaf id
-    static REG: RefCell<HashMap<u32, Rc<Cell<u32>>>> = RefCell::new(HashMap::new());
+    static REG: RefCell<HashMap<u32, (Rc<Cell<u32>>, Rc<Cell<bool>>)>> = RefCell::new(HashMap::new());
     /// set when a leaf / init future is polled after completion
     static REPOLL: Cell<bool> = const { Cell::new(false) };
 }
@@ -571,7 +571,7 @@ struct LeafSvc {
     id: u32,
     cp: u32,
     cok: bool,
-    rok: bool,
+    rok: Rc<Cell<bool>>,
     rp: Rc<Cell<u32>>,
 }
 impl Service<u32> for LeafSvc {
@@ -585,7 +585,7 @@ impl Service<u32> for LeafSvc {
             log(Ev::Rdy(self.id, w, None));
             park(cx);
             Poll::Pending
-        } else if self.rok {
+        } else if self.rok.get() {
             log(Ev::Rdy(self.id, w, Some(Ok(()))));
             Poll::Ready(Ok(()))
         } else {
@@ -829,8 +829,9 @@ fn build_svc(s: &S) -> BS {
     match s {
         S::Leaf { id, cp, cok, rp, rok } => {
             let cell = Rc::new(Cell::new(*rp));
-            REG.with(|r| r.borrow_mut().insert(*id, cell.clone()));
-            boxed::service(LeafSvc { id: *id, cp: *cp, cok: *cok, rok: *rok, rp: cell })
+            let okc = Rc::new(Cell::new(*rok));
+            REG.with(|r| r.borrow_mut().insert(*id, (cell.clone(), okc.clone())));
+            boxed::service(LeafSvc { id: *id, cp: *cp, cok: *cok, rok: okc, rp: cell })
         }
         S::Fn { id, cok } => {
             let (id, cok) = (*id, *cok);
@@ -1177,10 +1178,27 @@ fn sync_ast(s: &mut S) {
         let r = r.borrow();
         leaves_mut(s, &mut |id, rp| {
             if let Some(c) = r.get(&id) {
-                *rp = c.get()
+                *rp = c.0.get()
             }
         })
     })
+}
+/// leaf `i` starts a new readiness round (AST side)
+fn rescript_ast(s: &mut S, i: u32, nrp: u32, nrok: bool) {
+    match s {
+        S::Leaf { id, rp, rok, .. } => {
+            if *id == i {
+                *rp = nrp;
+                *rok = nrok;
+            }
+        }
+        S::Fn { .. } => {}
+        S::Map(s, _) | S::MapErr(s, _) | S::Apply(s, _, _) | S::Wrap(_, s) | S::Mw(s, _) | S::Reenter(_, _, s) => rescript_ast(s, i, nrp, nrok),
+        S::Then(a, b) => {
+            rescript_ast(a, i, nrp, nrok);
+            rescript_ast(b, i, nrp, nrok)
+        }
+    }
 }
 
 /// what `poll_ready` must answer now: ready iff every inner service is ready, an inner error
@@ -1614,6 +1632,8 @@ enum Verdict {
     Pending,
     Ok,
     Err,
+    /// some inner service was not polled in the readiness poll that let the closure run
+    NotAsked,
 }
 
 /// C12 oracles on the log of one `new_service` drive: readiness errors and the readiness gate
@@ -1651,12 +1671,18 @@ fn check_fac_readiness(rep: &mut Report, what: &str, log: &[Ev], res: &str, got_
             });
             let verdict = last_w.map(|lw| {
                 let mut v = Verdict::Ok;
+                // every inner service must have been asked in that poll
+                for lid in &g.leaf_ids {
+                    if !log[..i].iter().any(|e| matches!(e, Ev::Rdy(id, w, _) if id == lid && *w == lw)) {
+                        v = Verdict::NotAsked;
+                    }
+                }
                 for e in &log[..i] {
                     if let Ev::Rdy(id, w, r) = e {
                         if *w == lw && g.leaf_ids.contains(id) {
                             match r {
                                 Some(Err(_)) => v = Verdict::Err,
-                                None if v == Verdict::Ok => v = Verdict::Pending,
+                                None if v == Verdict::Ok || v == Verdict::NotAsked => v = Verdict::Pending,
                                 _ => {}
                             }
                         }
@@ -1774,6 +1800,27 @@ fn run(a: &Args) {
                     if seen.values().any(|c| *c > 1) {
                         rep.t3("C12", "ready-polled-twice: an inner service was polled for readiness twice within one poll_ready");
                     }
+                    // readiness is a statement about NOW: Ready(Ok) only after every inner service has been
+                    // asked in this very poll (and answered Ready(Ok)); never from a remembered answer
+                    if matches!(r, Ok(Poll::Ready(Ok(())))) {
+                        for l in &ls {
+                            if let S::Leaf { id: lid, .. } = l {
+                                let asked_ok = log.iter().any(|e| matches!(e, Ev::Rdy(i, _, Some(Ok(()))) if i == lid));
+                                if !asked_ok {
+                                    let how = match log.iter().find(|e| matches!(e, Ev::Rdy(i, _, _) if i == lid)) {
+                                        Some(e) => format!("it answered {e}"),
+                                        None => "it was not asked at all: a remembered readiness".to_string(),
+                                    };
+                                    rep.t3("C12", &format!("ready-not-asked: poll_ready of {ast} answered Ready(Ok) {} although inner service {lid} did not answer Ready(Ok) in this poll ({how})", fmt_log(&log)));
+                                }
+                            }
+                        }
+                    }
+                    if let Ok(Poll::Ready(Err(_))) = r {
+                        if !log.iter().any(|e| matches!(e, Ev::Rdy(_, _, Some(Err(_))))) {
+                            rep.t3("C12", &format!("ready-err-invented: poll_ready of {ast} answered {res} {} although no inner service answered an error in this poll", fmt_log(&log)));
+                        }
+                    }
                     if matches!(r, Ok(Poll::Pending)) {
                         let mut any = false;
                         for l in &ls {
@@ -1799,6 +1846,30 @@ fn run(a: &Args) {
                     format!("{} r={res}", fmt_log(&log))
                 } else {
                     format!("{} r={res} k={k}", fmt_log(&log))
+                }
+            }
+            "reset" if toks.len() == 4 && cur.is_some() => {
+                let args = (num(&toks[1]), num(&toks[2]), match toks[3].as_str() {
+                    "ok" => Some(true),
+                    "err" => Some(false),
+                    _ => None,
+                });
+                let mut ids = vec![];
+                if let Some(ast) = cur_ast.as_ref() {
+                    svc_leaf_ids(ast, &mut ids);
+                }
+                match args {
+                    (Some(i), Some(rp), Some(rok)) if ids.contains(&i) => {
+                        REG.with(|r| {
+                            if let Some(c) = r.borrow().get(&i) {
+                                c.0.set(rp);
+                                c.1.set(rok);
+                            }
+                        });
+                        rescript_ast(cur_ast.as_mut().unwrap(), i, rp, rok);
+                        "ok".into()
+                    }
+                    _ => "bad-op".into(),
                 }
             }
             "call" if toks.len() == 2 && cur.is_some() && num(&toks[1]).is_some() => {
@@ -1929,6 +2000,10 @@ fn run(a: &Args) {
                         };
                         if sorted(&got_news) != sorted(&tr.news) {
                             rep.t3("C11", &format!("factory-builds-once: {what}: inner factories were asked {got_news:?}, expected each once with its config: {:?}", tr.news));
+                        } else if got_news != tr.news {
+                            // every inner new_service is called synchronously by the outer new_service, in
+                            // pipeline order: first stage before second stage, inner factory before what is built on it
+                            rep.t3("C11", &format!("factory-build-order: {what}: inner factories were asked in the order {got_news:?}, the reference composition builds them in pipeline order {:?} (first stage, then second stage)", tr.news));
                         }
                         if agrees && polls.len() != want.pend as usize + 1 {
                             rep.t3("C11", &format!("factory-first-error-poll: {what} resolved at poll {} but the first decisive inner result is at poll {}", polls.len(), want.pend + 1));
@@ -2552,10 +2627,14 @@ fn rescript_fac(f: &mut F, rng: &mut Rng, maxk: usize, next: &mut u32, nextf: &m
     }
 }
 
-fn emit_ops(w: &mut dyn Write, rng: &mut Rng, n: usize, ready_bias: usize) {
-    // `ready_bias` out of 10 ops are poll_ready; always at least one call
+fn emit_ops(w: &mut dyn Write, rng: &mut Rng, n: usize, ready_bias: usize, nleaves: usize) {
+    // `ready_bias` out of 10 ops are poll_ready; always at least one call; now and then a leaf starts a
+    // new readiness round (Pending again / broken) followed by a readiness poll
     let mut called = false;
     for i in 0..n {
+        if nleaves > 0 && called && rng.chance(1, 6) {
+            writeln!(w, "reset {} {} {}\nready", rng.below(nleaves), rng.below(3), oe(rng.chance(2, 3))).unwrap();
+        }
         if rng.below(10) < ready_bias && !(i + 1 == n && !called) {
             writeln!(w, "ready").unwrap();
         } else {
@@ -2646,6 +2725,11 @@ fn emit_fac_case(w: &mut dyn Write, name: &str, f: &F, cfg: u32) {
     writeln!(w, "fac {f} {cfg}").unwrap();
     if ref_fac(f, cfg, &mut FacTrace::default()).res.is_ok() {
         writeln!(w, "ready\nready\ncall 1\nready\ncall 2").unwrap();
+        let mut ids = vec![];
+        fac_leaf_ids(f, &mut ids);
+        if let Some(i) = ids.first() {
+            writeln!(w, "reset {i} 1 {}\nready\nready", oe(cfg % 2 == 0)).unwrap();
+        }
     } else {
         writeln!(w, "ready").unwrap(); // no service: rejected on both sides
     }
@@ -2680,12 +2764,14 @@ fn gen_catalogue(w: &mut dyn Write) {
             svc_case(w, "andthen-ready-a", &S::Then(bx(lf(0, 0, true, k, o)), bx(lf(1, 0, true, 1, true))), "ready\nready\nready\nready\ncall 1");
             svc_case(w, "andthen-ready-b", &S::Then(bx(lf(0, 0, true, 1, true)), bx(lf(1, 0, true, k, o))), "ready\nready\nready\nready\ncall 1");
             svc_case(w, "andthen-ready-ab", &S::Then(bx(lf(0, 0, true, k, !o)), bx(lf(1, 0, true, 2 - k, o))), "ready\nready\nready\nready");
+            svc_case(w, "andthen-second-round", &S::Then(bx(S::Wrap(WK::Boxed, bx(lf(0, 0, true, k, true)))), bx(S::Wrap(WK::RcBoxed, bx(lf(1, 0, true, 0, true))))), if o { "ready\nready\nready\ncall 1\nreset 1 1 ok\nready\nready\nreset 0 0 err\nready" } else { "ready\nready\nready\ncall 1\nreset 0 2 ok\nready\nreset 1 0 err\nready\nready" });
             svc_case(w, "andthen-fn", &S::Then(bx(lf(0, k, o, k, true)), bx(S::Fn { id: 11, cok: o })), "ready\ncall 1");
             svc_case(w, "fn-andthen", &S::Then(bx(S::Fn { id: 11, cok: o }), bx(lf(0, k, !o, k, o))), "ready\ncall 1\nready\nready");
             let leaf = lf(0, k, o, k, !o);
             let leaf2 = lf(0, k, !o, k, o);
             for l in [&leaf, &leaf2] {
-                let ops = "ready\nready\nready\ncall 1\ncall 2";
+                // first readiness round, calls, then a second round: Pending again, then broken
+                let ops = "ready\nready\nready\ncall 1\ncall 2\nreset 0 1 ok\nready\nready\nreset 0 0 err\nready\nreset 0 2 err\nready";
                 svc_case(w, "map", &S::Map(bx(l.clone()), 21), ops);
                 svc_case(w, "maperr", &S::MapErr(bx(l.clone()), 22), ops);
                 for ak in AKS {
@@ -2793,6 +2879,7 @@ fn gen(a: &Args) {
         "call x",
         "ready",
         "call 3",
+        "reset 0 1 ok",
         "frobnicate",
     ] {
         writeln!(w, "{l}").unwrap();
@@ -2837,10 +2924,14 @@ fn gen(a: &Args) {
             writeln!(w, "case shape-{n}").unwrap();
             writeln!(w, "svc {s}").unwrap();
             if full {
-                // deterministic op list: readiness polls, a call, settle, another call
+                // deterministic op list: readiness polls, a call, settle, another call, then a second
+                // readiness round of leaf 0 (Pending again, then ok / broken)
                 writeln!(w, "ready\nready\ncall 1\nready\ncall 2").unwrap();
+                if nl > 0 {
+                    writeln!(w, "reset 0 1 {}\nready\nready", oe(d % 2 == 0)).unwrap();
+                }
             } else {
-                emit_ops(&mut w, &mut rng, 5, ready_bias);
+                emit_ops(&mut w, &mut rng, 5, ready_bias, nl);
             }
         }
     }
@@ -2859,7 +2950,7 @@ fn gen(a: &Args) {
             writeln!(w, "case fshape-{n}").unwrap();
             writeln!(w, "fac {f} {cfg}").unwrap();
             if ref_fac(&f, cfg, &mut FacTrace::default()).res.is_ok() {
-                emit_ops(&mut w, &mut rng, 4, ready_bias);
+                emit_ops(&mut w, &mut rng, 4, ready_bias, nx as usize);
             } else {
                 writeln!(w, "ready").unwrap(); // no service: rejected on both sides
             }
@@ -2870,9 +2961,11 @@ fn gen(a: &Args) {
     let cases = if thorough { 20000 } else { 2000 };
     for c in 0..cases {
         let mut g = G::new(&mut rng, 2);
+        let nleaves;
         if c % 2 == 1 {
             let d = g.rng.range(1, 3);
             let f = g.fac(d);
+            nleaves = g.next_leaf as usize;
             let cfg = g.rng.below(10) as u32;
             writeln!(w, "case rfac-{c}").unwrap();
             writeln!(w, "fac {f} {cfg}").unwrap();
@@ -2882,11 +2975,12 @@ fn gen(a: &Args) {
         } else {
             let d = g.rng.range(1, 3);
             let s = g.svc(d);
+            nleaves = g.next_leaf as usize;
             writeln!(w, "case rsvc-{c}").unwrap();
             writeln!(w, "svc {s}").unwrap();
         }
         let nops = rng.range(2, 7);
-        emit_ops(&mut w, &mut rng, nops, ready_bias);
+        emit_ops(&mut w, &mut rng, nops, ready_bias, nleaves);
     }
     w.flush().unwrap();
 }
